@@ -599,6 +599,32 @@ class MeshCase:
 # indicator families (a function of the leaf's logical box, so an op keeps
 # its meaning when earlier ops are dropped during minimisation)
 # --------------------------------------------------------------------------
+EXACT_TEMPLATES = [
+    # (theta, descending values): a prefix sum hits theta^2 * total exactly
+    (0.9, [100.0, 62.0, 38.0]),
+    (0.7, [30.0, 19.0, 19.0, 16.0, 16.0]),
+    (0.6, [36.0, 32.0, 32.0]),
+    (0.3, [9.0, 9.0, 9.0, 9.0, 9.0, 9.0, 9.0, 9.0, 9.0, 9.0, 9.0, 1.0]),
+    (0.9, [81.0, 10.0, 9.0]),
+    (0.8, [40.0, 24.0, 20.0, 16.0]),
+]
+
+
+def eta_fn(op, boxes):
+    """f(box, axis) -> indicator value, for the leaves `boxes` of the mesh
+    the op is applied to."""
+    if op['cls'] != 'exact':
+        return lambda b, a: eta_value(op, b, a)
+    theta, tpl = EXACT_TEMPLATES[op.get('template', 0) % len(EXACT_TEMPLATES)]
+    order = sorted(boxes, key=lambda b: H(op['seed'], b))
+    if len(order) < len(tpl):
+        return lambda b, a: eta_value(dict(op, cls='ints'), b, a)
+    table = {b: v for b, v in zip(order, tpl)}
+    scale = op.get('scale', 1.0)
+    ax = op.get('dom_axis', 0)
+    return lambda b, a: scale * table.get(b, 0.0) if a == ax else 0.0
+
+
 def eta_value(op, box, axis):
     # the marking rule is scale invariant: a converged estimator hands over
     # indicators of size 1e-10, a bad start ones of size 1e6
@@ -623,10 +649,12 @@ def _eta_base(op, box, axis):
         return 1e-3 * u
     if cls == 'wide':
         return 10.0**(-12 + 14 * u)
+    if cls == 'exact':
+        return float(h % 4)  # only reached through legacy paths
     raise ValueError(cls)
 
 
-def mark_exact(items, theta):
+def mark_exact(items, theta, strict=True):
     """items: list of (value, key).  Returns (always_marked_keys, tied_keys,
     m) -- the shortest prefix of the descending order whose exact sum reaches
     theta^2 * total consists of always_marked plus any m of tied_keys -- or
@@ -641,7 +669,7 @@ def mark_exact(items, theta):
     k_star = None
     for k, (v, _) in enumerate(vals):
         acc += Fraction(v)
-        if abs(acc - thr) <= Fraction(1, 10**9) * thr:
+        if strict and abs(acc - thr) <= Fraction(1, 10**9) * thr:
             return None
         if acc >= thr:
             k_star = k
@@ -680,20 +708,24 @@ def apply_marks(mm, time_boxes, space_boxes, limit=None):
         mm.bisect_region(b, 1, limit)
 
 
-def dorfler_marks(op, boxes):
+def dorfler_marks(op, boxes, strict=True):
     """All admissible (time_boxes, space_boxes) marked sets for this op on
-    the given leaves (one per tie-break)."""
+    the given leaves (one per tie-break).  strict=False (generation only):
+    a best guess instead of Ambiguous."""
     iso = op['op'] == 'dorfler_iso'
+    f = eta_fn(dict(op, dom_axis=0) if iso else op, boxes)
     if iso:
-        items = [(eta_value(op, b, 0), (b, 2)) for b in boxes]
+        items = [(f(b, 0), (b, 2)) for b in boxes]
     else:
-        items = [(eta_value(op, b, a), (b, a)) for b in boxes for a in (0, 1)]
-    r = mark_exact(items, op['theta'])
+        items = [(f(b, a), (b, a)) for b in boxes for a in (0, 1)]
+    r = mark_exact(items, op['theta'], strict)
     if r is None:
         raise Ambiguous('dorfler-threshold')
     always, tied, m = r
     if math.comb(len(tied), m) > 40:
-        raise Ambiguous('dorfler-ties')
+        if strict:
+            raise Ambiguous('dorfler-ties')
+        tied = tied[:m]
     out = []
     for combo in itertools.combinations(tied, m):
         keys = always + list(combo)
@@ -736,7 +768,7 @@ def model_grading(case, mm, sigma, K, cap):
             raise OverflowError('grading too large')
 
 
-def model_apply(case, mm, op, cap):
+def model_apply(case, mm, op, cap, strict=True):
     """Applies op to model mm.  For Doerfler returns the list of admissible
     result leaf sets (mm is left in the first one)."""
     kind = op['op']
@@ -766,7 +798,7 @@ def model_apply(case, mm, op, cap):
         mm.adopt(new)
     elif kind in ('dorfler_iso', 'dorfler_aniso'):
         boxes = sorted(mm.leaves)
-        marks, n_tied, m = dorfler_marks(op, boxes)
+        marks, n_tied, m = dorfler_marks(op, boxes, strict)
         results = []
         first = None
         for tb, sb in marks:
@@ -889,21 +921,30 @@ def apply_op(case, op, cov, mode, log):
     elif kind in ('dorfler_iso', 'dorfler_aniso'):
         elems = case.impl_leaves()
         boxes = [case.box_of(e) for e in elems]
+        f = eta_fn(dict(op, dom_axis=0) if kind == 'dorfler_iso' else op,
+                   boxes)
         if kind == 'dorfler_iso':
-            eta = np.array([eta_value(op, b, 0) for b in boxes])
+            eta = np.array([f(b, 0) for b in boxes])
         else:
-            eta = np.array([[eta_value(op, b, 0),
-                             eta_value(op, b, 1)] for b in boxes])
+            eta = np.array([[f(b, 0), f(b, 1)] for b in boxes])
         if not (eta.sum() > 0):
             from .core import SkipRun
             raise SkipRun('eta-all-zero')
+        ambiguous = False
         if mode.get('dorfler_oracle'):
             try:
                 results = model_apply(case, model, op, cap)
+                cov.inc('probe.dorfler_tiebreaks_gt1',
+                        1 if len(results) > 1 else 0)
             except Ambiguous as a:
-                from .core import SkipRun
-                raise SkipRun(a.why)
-            cov.inc('probe.dorfler_tiebreaks_gt1', 1 if len(results) > 1 else 0)
+                # which prefix is "the" shortest one legitimately depends on
+                # float accumulation order here (or there are too many
+                # tie-breaks to enumerate): the marked set is not judged,
+                # but the call must still not fail and must still produce a
+                # valid refinement
+                ambiguous = True
+                results = None
+                cov.inc('probe.dorfler_marking_not_judged.' + a.why)
         fn = (mesh.dorfler_refine_isotropic if kind == 'dorfler_iso' else
               mesh.dorfler_refine_anisotropic)
         limit = 4000 * (n_before + 10) + (400 * max(
@@ -944,7 +985,8 @@ def apply_op(case, op, cov, mode, log):
                            'client_patch')
     if transparent and mode.get('compare'):
         boxes = case.check_leafset(site)
-    elif kind.startswith('dorfler') and mode.get('dorfler_oracle'):
+    elif kind.startswith('dorfler') and mode.get('dorfler_oracle') and (
+            results is not None):
         boxes = case.check_valid_refinement(site, before)
         got = frozenset(boxes)
         hit = [r for r in results if r[0] == got]
@@ -979,6 +1021,11 @@ def apply_op(case, op, cov, mode, log):
                     })
         model.adopt(set(boxes))
 
+    if len(model.leaves) > 6000:
+        # undecidable marking steps can make the real mesh outgrow what the
+        # generator planned for; stop rather than time out
+        from .core import SkipRun
+        raise SkipRun('mesh-outgrew-generator-bounds')
     for p in mode.get('post', ()):
         getattr(case, 'check_' + p)(site) if p != 'neighbours' else (
             case.check_neighbours(site, cov))
@@ -1166,7 +1213,9 @@ def gen_run(seed, params):
             op = {
                 'op': kind,
                 'cls': rng.choice(
-                    ['random', 'zeros', 'ints', 'dominant', 'wide', 'ints']),
+                    ['random', 'zeros', 'ints', 'dominant', 'wide', 'ints',
+                     'exact']),
+                'template': rng.randrange(16),
                 'seed': rng.randrange(1 << 30),
                 'theta': rng.choice([
                     rng.uniform(0.001, 0.999999), rng.uniform(0.3, 0.95), 0.5,
@@ -1178,11 +1227,25 @@ def gen_run(seed, params):
             }
         elif kind == 'grading':
             op = {'op': 'grading', 'sigma': rng.choice([1, 1.5, 2, 2])}
+        if op.get('cls') == 'exact':
+            # a prefix sum that hits theta^2 * total exactly
+            op['theta'] = EXACT_TEMPLATES[op['template'] %
+                                          len(EXACT_TEMPLATES)][0]
+            op['scale'] = rng.choice([1.0, 1.0, 0.5, 4.0])
         trial = mm.copy()
         try:
             model_apply(case, trial, op, cap)
-        except (OverflowError, Ambiguous):
+        except OverflowError:
             continue
+        except Ambiguous:
+            # the marked set is not decidable (threshold hit exactly, many
+            # ties): the op is still executed -- the call must not fail --
+            # and generation continues from a best guess of the result
+            trial = mm.copy()
+            try:
+                model_apply(case, trial, op, cap, strict=False)
+            except (OverflowError, Ambiguous):
+                continue
         if len(trial.leaves) > cap:
             continue
         mm = trial
